@@ -92,7 +92,7 @@ Labels == <<[n |-> "fwd", b |-> "strict", f |-> TRUE, e |-> FALSE], [n |-> "err"
 Under(lvl, tab, upm, x, lb) ==
     LET outs == BaseOuts(tab, x, lb.b) IN
     IF lvl = "pipe" THEN PipeIn(IF lb.f THEN Forwarded(outs) ELSE outs, upm, x, lb.e)
-    ELSE ~lb.f /\ ~lb.e /\ FiltIn(outs, x)
+    ELSE (lb.n = "all" \/ (~lb.f /\ ~lb.e)) /\ FiltIn(outs, x)
 Deviation(lvl, tab, upm, x) ==
     IF \E i \in DOMAIN Labels : Under(lvl, tab, upm, x, Labels[i])
     THEN Labels[CHOOSE i \in DOMAIN Labels : Under(lvl, tab, upm, x, Labels[i])
